@@ -28,6 +28,7 @@ type FSFault struct {
 
 // FSAccess is one entry of the file-system log.
 type FSAccess struct {
+	Seq  int    `json:"q"`
 	Step int    `json:"s"`
 	Task string `json:"t"`
 	Op   string `json:"op"`
@@ -121,7 +122,8 @@ func (f *simFS) snapshot() (map[string][]byte, []string) {
 }
 
 func (f *simFS) record(op, path string, n int, err error) {
-	a := FSAccess{Step: f.w.step, Task: CurTask(), Op: op, Path: path, N: n}
+	f.w.evSeq++
+	a := FSAccess{Seq: f.w.evSeq, Step: f.w.step, Task: CurTask(), Op: op, Path: path, N: n}
 	if err != nil {
 		a.Err = err.Error()
 	}
